@@ -123,6 +123,9 @@ def run(tier, rnd, out):
     run_stream(out, "operations", cs, world.run_cases_fresh(cs))
     cs = oc.mixed_cases(rnd, max(4, n // 10), reply_mode="faulty")
     run_stream(out, "operations-faulty-replies", cs, world.run_cases_fresh(cs))
+    from props import c02
+    cs, texts = c02.run_on_one_object(rnd, 25 if tier == "quick" else 600, list(range(1, 13)))
+    run_stream(out, "sequences-on-one-object", cs, texts)
     cs = fault_cases(rnd, 2 if tier == "quick" else 40)
     run_stream(out, "empty-reply-at-each-step", cs, world.run_cases_fresh(cs))
     cs = self_signed_cases(rnd, 150 if tier == "quick" else 3000)
